@@ -64,6 +64,7 @@ class World(Domain):
         self.created = []          # every create_node call, in order
         self.lazy_services = False
         self.typecheck = False     # run the interpreted type checker on every constructed node
+        self.real_manager = False  # True: FormulaManager (create_node, tables, type check) is interpreted from source
         self._real_stc = None
         self._typed = set()
         self.kinds = {}            # symbolic variable -> 'int' | 'real' | 'bv' | 'width' | 'idx'
@@ -325,9 +326,9 @@ class World(Domain):
                 if name in ci.attrs:
                     break
         if isinstance(obj, AObj):
-            if obj.cls == FM and name == "create_node":
+            if obj.cls == FM and name == "create_node" and not self.real_manager:
                 return True, Prim(self._create_node, "create_node")
-            if obj.cls == FM and name in ("_do_type_check", "_do_type_check_real"):
+            if obj.cls == FM and name in ("_do_type_check", "_do_type_check_real") and not self.real_manager:
                 return True, Prim(lambda i, a, k: None, name)
             if obj.tag == "stc-model" and name in ("get_type", "walk"):
                 return True, Prim(lambda i, a, k: self.tyobj(self.nsort(a[0])), "stc." + name)
@@ -779,3 +780,22 @@ _CONST_PRED = {
     "pysmt_integer_from_integer": _p_ident, "pysmt_fraction_from_rational": _p_frac_from,
     "to_python_integer": _p_ident,
 }
+
+
+
+class RealMgrWorld(World):
+    """The formula manager is not modelled: FormulaManager.__init__, create_node, its tables and counters, FNode and
+    the construction-time type check (the environment's SimpleTypeChecker) are all interpreted from source."""
+
+    def attach(self, it):
+        World.attach(self, it)
+        self.real_manager = True
+        self.env.attrs["_stc"] = it.instantiate(ClassRef(STC), [self.env], {})
+        self.mgr = it.instantiate(ClassRef(FM), [self.env], {})
+        self.env.attrs["_formula_manager"] = self.mgr
+        return self
+
+    def mk_node(self, node_type, args, payload):
+        if not self.real_manager:       # during World.attach only
+            return World.mk_node(self, node_type, args, payload)
+        return self.it.call(self.it.getattr(self.mgr, "create_node"), [node_type, tuple(args), payload], {})
